@@ -439,7 +439,10 @@ def k_indep(run, case):
     how_d, how_m = case["derive"], case["mutate"]
     direction = case["direction"]
     mode = case["mode"]
-    A, arrA, _ = fresh(rng, n=int(rng.integers(4, 30)), mode=mode, materialise=case["materialise"])
+    n_src = int(rng.integers(4, 30))
+    if how_d.startswith("split") and rng.random() < .25:
+        n_src = 1  # an isolated pose between two tracking losses, split again
+    A, arrA, _ = fresh(rng, n=n_src, mode=mode, materialise=case["materialise"])
     twin = gen.make_evo(arrA, mode)  # same generating arrays, never shared with anything
     exp = gen.read_views(twin)
     run.seen(case, core.digest(arrA["p"], how_d, how_m, direction, mode, case["materialise"]),
